@@ -363,12 +363,12 @@ func (a *TokAPI) body(ctx context.Context, tok string, plan Plan) (Result, error
 			id, err := rc.Alias(ctx, tok)
 			id2, err2 := rc.Other(ctx, tok)
 			if err != nil {
-				revs = append(revs, "!err:"+err.Error())
-			} else if err2 != nil {
-				revs = append(revs, "!err(second handler):"+err2.Error())
-			} else {
-				revs = append(revs, id+"&"+id2)
+				id = "!E1"
 			}
+			if err2 != nil {
+				id2 = "!E2" // expected when the calling client registered only one handler
+			}
+			revs = append(revs, id+"&"+id2)
 		} else {
 			revs = append(revs, "!absent")
 		}
